@@ -1782,6 +1782,76 @@ impl<'i, R: RuleType> ParserState<'i, R> {
     }
 }
 
+/// Verification hook (compiled only with `--cfg pest_parser_pest_verif`): a read-only copy of the whole
+/// parser state, so that the outcome of a combinator program can be compared field by field.
+#[cfg(pest_parser_pest_verif)]
+#[doc(hidden)]
+#[derive(Debug, Clone, PartialEq, Eq)]
+pub struct VerifObservation<R> {
+    pub pos: usize,
+    /// (is_start, input_pos, index of the partner token, rule of an End token, tag of an End token)
+    pub queue: Vec<(bool, usize, usize, Option<R>, Option<String>)>,
+    pub stack: Vec<String>,
+    pub stack_snapshots: usize,
+    /// 0 positive, 1 negative, 2 none
+    pub lookahead: u8,
+    /// 0 atomic, 1 compound atomic, 2 non atomic
+    pub atomicity: u8,
+    pub attempt_pos: usize,
+    pub pos_attempts: Vec<R>,
+    pub neg_attempts: Vec<R>,
+    pub calls: Option<(usize, usize)>,
+    pub detail_enabled: bool,
+    pub detail_max_position: usize,
+    pub detail_call_stacks: usize,
+}
+
+#[cfg(pest_parser_pest_verif)]
+impl<'i, R: RuleType> ParserState<'i, R> {
+    #[doc(hidden)]
+    pub fn verif_observe(&self) -> VerifObservation<R> {
+        VerifObservation {
+            pos: self.position.pos(),
+            queue: self
+                .queue
+                .iter()
+                .map(|t| match t {
+                    QueueableToken::Start {
+                        end_token_index,
+                        input_pos,
+                    } => (true, *input_pos, *end_token_index, None, None),
+                    QueueableToken::End {
+                        start_token_index,
+                        rule,
+                        tag,
+                        input_pos,
+                    } => (
+                        false,
+                        *input_pos,
+                        *start_token_index,
+                        Some(*rule),
+                        tag.map(|t| t.to_owned()),
+                    ),
+                })
+                .collect(),
+            stack: self.stack[0..self.stack.len()]
+                .iter()
+                .map(|s| s.as_borrowed_or_rc().as_str().to_owned())
+                .collect(),
+            stack_snapshots: self.stack.verif_parts().2.len(),
+            lookahead: self.lookahead as u8,
+            atomicity: self.atomicity as u8,
+            attempt_pos: self.attempt_pos,
+            pos_attempts: self.pos_attempts.clone(),
+            neg_attempts: self.neg_attempts.clone(),
+            calls: self.call_tracker.current_call_limit,
+            detail_enabled: self.parse_attempts.enabled,
+            detail_max_position: self.parse_attempts.max_position,
+            detail_call_stacks: self.parse_attempts.call_stacks.len(),
+        }
+    }
+}
+
 /// Helper function used only in case stack operations (PUSH/POP) are used in grammar.
 fn constrain_idxs(start: i32, end: Option<i32>, len: usize) -> Option<Range<usize>> {
     let start_norm = normalize_index(start, len)?;
